@@ -69,9 +69,15 @@ def gen_config(src, *, ssm=None, calib=None, strategy=None, lin=None, qmax=8, dm
     init = src.choice("init", list(inits))
     diffuse = 0
     if init == "diffuse":
-        diffuse = 1 if q - order >= 1 else 0
+        room = q - order
+        diffuse = src.randint("ndiffuse", 1, min(3, room)) if room >= 1 else 0
         if diffuse == 0:
             init = "inexact"
+    exact_flags = None
+    if init == "partial":  # some Taylor coefficients known exactly, others not (rank-deficient initial covariance)
+        exact_flags = [src.flip("exact_k", 0.5) for _ in range(q + 1)]
+        if all(exact_flags) or not any(exact_flags):
+            exact_flags[src.randint("flip_k", 0, q)] ^= True
     if lam_default:
         lam = [1.0] * d
     else:
@@ -86,9 +92,9 @@ def gen_config(src, *, ssm=None, calib=None, strategy=None, lin=None, qmax=8, dm
         "t0": src.choice("t0", [0.0, 0.0, src.rounded("t0", 0.0, 1.0)]),
         "lam": lam, "lam_default": bool(lam_default),
         "damp": (src.choice("damp", [0.0, 0.0, 1e-3, 1e-1]) if allow_damp else 0.0),
-        "init": init, "inexact_eps": src.choice("inexact_eps", [1e-2, 1e-3, 1e-6]),
+        "init": init, "exact_flags": exact_flags, "inexact_eps": src.choice("inexact_eps", [1e-2, 1e-3, 1e-6]),
         "diffuse_derivatives": diffuse, "diffuse_eps": src.choice("diffuse_eps", [1.0, 0.1]),
-        "constraint_init": bool(allow_constraint_init and init != "exact" and src.flip("cinit", 0.3)),
+        "constraint_init": bool(allow_constraint_init and init == "inexact" and src.flip("cinit", 0.3)),
         "mle_correct": src.flip("mle_correct", 0.5), "relin": src.flip("relin", 0.5),
         "prior": prior,
         "prior_par": {"w": [[(src.rounded("w", -1.0, -0.1) if i == j else src.rounded("w", -0.3, 0.3)) for j in range(d)]
@@ -177,6 +183,12 @@ def build(cfg, *, strategy=None, calib=None, ssm=None, lam=None, with_ref=True):
               diffuse_eps=cfg["diffuse_eps"], output_scale=os_)
     if cfg["init"] == "diffuse":
         kw["is_exact"] = True
+    if cfg["init"] == "partial":
+        flags = cfg["exact_flags"]
+        if cfg["ssm"] == "isotropic":
+            kw["is_exact"] = [jnp.asarray(bool(f)) for f in flags]
+        else:
+            kw["is_exact"] = [jnp.full((d,), bool(f)) for f in flags]
     pk = cfg["prior"]
     W = cfg["prior_par"]["w"]
     ls = cfg["prior_par"]["length_scale"]
@@ -231,7 +243,7 @@ def build(cfg, *, strategy=None, calib=None, ssm=None, lam=None, with_ref=True):
     for c in range(n):
         if c >= n - k:
             s = cfg["diffuse_eps"]
-        elif cfg["init"] == "inexact":
+        elif cfg["init"] == "inexact" or (cfg["init"] == "partial" and not cfg["exact_flags"][c]):
             s = cfg["inexact_eps"]
         else:
             s = 0.0
